@@ -266,6 +266,10 @@ for (n, ty, k) in [("index_queue", "FixedSizeIndexQueue<2>", 3), ("overflow_queu
                   what="%s: %d symbolic operations, byte-copy to a fresh block at a symbolic point of the history "
                        "(old block scribbled and freed), lock-step comparison with a twin that stayed" % (ty, k),
                   bounds="unwind 8-12; %d operations, relocation point symbolic" % k))
+_c14.append(H("c14::c14_overflow_queue_cap1", covers=1, timeout=1800, mem_gb=8,
+              what="FixedSizeSafelyOverflowingIndexQueue<1>: fill / overflow / push again around the relocation point "
+                   "(the overflow path fits into three operations at capacity 1)",
+              bounds="unwind 8; 3 operations, relocation point symbolic"))
 _c14.append(H("c14::c14_relocatable_pointer", covers=0, timeout=600, mem_gb=3,
               what="RelocatablePointer::as_ptr follows its block by exactly the placement delta",
               bounds="distance < 16"))
